@@ -19,30 +19,56 @@ TRUE = z3.BoolVal(True)
 FALSE = z3.BoolVal(False)
 
 
+_CTX = z3.main_ctx()
+_TRUE_ID = TRUE.get_id()
+_FALSE_ID = FALSE.get_id()
+
+
+def _mk_nary(fn, xs):
+    """z3.And / z3.Or through the C API (the python wrappers spend most of
+    their time coercing arguments)"""
+    n = len(xs)
+    arr = (z3.Ast * n)()
+    for k, x in enumerate(xs):
+        arr[k] = x.ast
+    return z3.BoolRef(fn(_CTX.ref(), n, arr), _CTX)
+
+
 def AND(*xs):
-    xs = [x for x in xs if not z3.is_true(x)]
-    if any(z3.is_false(x) for x in xs):
-        return FALSE
-    if not xs:
+    out = []
+    for x in xs:
+        i = x.get_id()
+        if i == _TRUE_ID:
+            continue
+        if i == _FALSE_ID:
+            return FALSE
+        out.append(x)
+    if not out:
         return TRUE
-    return z3.And(xs) if len(xs) > 1 else xs[0]
+    return _mk_nary(z3.Z3_mk_and, out) if len(out) > 1 else out[0]
 
 
 def OR(xs):
-    xs = [x for x in xs if not z3.is_false(x)]
-    if any(z3.is_true(x) for x in xs):
-        return TRUE
-    if not xs:
+    out = []
+    for x in xs:
+        i = x.get_id()
+        if i == _FALSE_ID:
+            continue
+        if i == _TRUE_ID:
+            return TRUE
+        out.append(x)
+    if not out:
         return FALSE
-    return z3.Or(xs) if len(xs) > 1 else xs[0]
+    return _mk_nary(z3.Z3_mk_or, out) if len(out) > 1 else out[0]
 
 
 def NOT(x):
-    if z3.is_true(x):
+    i = x.get_id()
+    if i == _TRUE_ID:
         return FALSE
-    if z3.is_false(x):
+    if i == _FALSE_ID:
         return TRUE
-    return z3.Not(x)
+    return z3.BoolRef(z3.Z3_mk_not(_CTX.ref(), x.ast), _CTX)
 
 
 SPACE = [9, 10, 11, 12, 13, 28, 29, 30, 31, 32]
@@ -137,11 +163,13 @@ class SymPattern:
                 return TRUE if i == 0 else s.at(i - 1) == 10
             return z3.BoolVal(i == 0)
         if av is K.AT_END:
+            if i < s.lo:
+                return (s.at(i) == 10) if ml else z3.And(n == i + 1, s.at(i) == 10)
             if ml:
                 return z3.Or(n == i, s.at(i) == 10)
             return z3.Or(n == i, z3.And(n == i + 1, s.at(i) == 10))
         if av is K.AT_END_STRING:
-            return n == i
+            return FALSE if i < s.lo else n == i
         if av is K.AT_BOUNDARY or av is K.AT_NON_BOUNDARY:
             before = is_word(s.at(i - 1)) if i > 0 else FALSE
             after = z3.And(i < n, is_word(s.at(i)))
@@ -150,40 +178,90 @@ class SymPattern:
         raise Unsupported('regex anchor %s' % av)
 
     # ---- ordered alternatives
-    def seq(self, items, s, i, groups):
-        res = [(TRUE, i, groups)]
-        for it in items:
+    # Conditions inside seq/item/rep are CONJUNCTION LISTS: tuples of z3 Bool
+    # atoms (each simplified once; true atoms dropped, a false atom prunes the
+    # alternative).  z3 terms are only built in match_at.  This keeps the cost
+    # of enumerating the backtracking order linear in the number of
+    # alternatives instead of re-simplifying growing conjunctions.
+    def _atom(self, t):
+        """-> None if false, () if true, (term,) otherwise"""
+        if isinstance(t, bool):
+            return () if t else None
+        t = z3.simplify(t)
+        if z3.is_true(t):
+            return ()
+        if z3.is_false(t):
+            return None
+        return (t,)
+
+    def _char_atom(self, op, av, s, i):
+        # the cache lives on the string object (and dies with it)
+        key = (self.flags, str(op), repr(av), i)
+        cache = s.__dict__.setdefault('_recache', {})
+        if key not in cache:
+            if i < s.lo:
+                cache[key] = self._atom(self.ccond(op, av, s.cs[i]))
+            else:
+                cache[key] = self._atom(z3.And(i < s.nz(), self.ccond(op, av, s.cs[i])))
+        return cache[key]
+
+    def _runlen(self, op, av, s):
+        """R[i] = length of the maximal run of characters matching the class
+        (op, av) that starts at i and stays inside the string (z3 Int terms,
+        one shared backward pass per (class, string))"""
+        key = ('run', self.flags, str(op), repr(av))
+        cache = s.__dict__.setdefault('_recache', {})
+        if key not in cache:
+            n = s.nz()
+            R = [None] * (s.cap + 1)
+            R[s.cap] = z3.IntVal(0)
+            always = op is K.ANY and bool(self.flags & real_re.DOTALL)
+            for i in reversed(range(s.cap)):
+                if always:
+                    R[i] = z3.simplify(z3.If(n > i, n - i, 0))
+                else:
+                    a = self._char_atom(op, av, s, i)
+                    if a is None:
+                        R[i] = z3.IntVal(0)
+                    else:
+                        R[i] = z3.simplify(z3.If(AND(*a), 1 + R[i + 1], 0)) if a else z3.simplify(1 + R[i + 1])
+            cache[key] = R
+        return cache[key]
+
+    def seq(self, items, s, i, groups, tail=False):
+        res = [((), i, groups)]
+        last = len(items) - 1
+        for x, it in enumerate(items):
             new = []
             for (c, j, g) in res:
-                for (c2, j2, g2) in self.item(it, s, j, g):
-                    cc = z3.simplify(AND(c, c2))
-                    if not z3.is_false(cc):
-                        new.append((cc, j2, g2))
+                for (c2, j2, g2) in self.item(it, s, j, g, tail=tail and x == last):
+                    new.append((c + c2, j2, g2))
             res = new
             if not res:
                 break
         return res
 
-    def item(self, it, s, i, groups):
+    def item(self, it, s, i, groups, tail=False):
         op, av = it
-        n = s.nz()
         if op in (K.LITERAL, K.NOT_LITERAL, K.ANY, K.IN, K.RANGE, K.CATEGORY):
             if i >= s.cap:
                 return []
-            return [(z3.And(i < n, self.ccond(op, av, s.cs[i])), i + 1, groups)]
+            a = self._char_atom(op, av, s, i)
+            return [] if a is None else [(a, i + 1, groups)]
         if op is K.AT:
-            return [(self.at_cond(av, s, i), i, groups)]
+            a = self._atom(self.at_cond(av, s, i))
+            return [] if a is None else [(a, i, groups)]
         if op is K.BRANCH:
             out = []
             for alt in av[1]:
-                out += self.seq(list(alt), s, i, groups)
+                out += self.seq(list(alt), s, i, groups, tail=tail)
             return out
         if op is K.SUBPATTERN:
             gid, addf, delf, p = av
             if addf or delf:
                 raise Unsupported('inline regex flags')
             out = []
-            for (c, j, g) in self.seq(list(p), s, i, groups):
+            for (c, j, g) in self.seq(list(p), s, i, groups, tail=tail):
                 if gid is not None:
                     g = dict(g)
                     g[gid] = (i, j)
@@ -193,49 +271,108 @@ class SymPattern:
             lo, hi, p = av
             greedy = op is K.MAX_REPEAT
             plist = list(p)
+            if (tail and greedy and len(plist) == 1 and hi is K.MAXREPEAT
+                    and plist[0][0] in (K.LITERAL, K.NOT_LITERAL, K.ANY, K.IN, K.RANGE, K.CATEGORY)):
+                # greedy single-character repeat that ends the whole pattern:
+                # nothing follows, so the match simply extends over the maximal
+                # run.  ONE alternative with a symbolic end instead of one per
+                # possible length.
+                if i > s.cap:
+                    return []
+                R = self._runlen(plist[0][0], plist[0][1], s)[i]
+                a = self._atom(R >= lo) if lo > 0 else ()
+                if a is None:
+                    return []
+                b2 = self._atom(i <= s.nz()) if i > s.lo else ()
+                if b2 is None:
+                    return []
+                return [(a + b2, z3.simplify(i + R), groups)]
 
             def rep(count, pos, g):
-                stop = [(TRUE, pos, g)] if count >= lo else []
+                stop = [((), pos, g)] if count >= lo else []
                 more = []
                 if hi is K.MAXREPEAT or count < hi:
                     for (c, j, g2) in self.seq(plist, s, pos, g):
                         if j == pos:
                             continue  # empty iteration: no progress
                         for (c3, j3, g3) in rep(count + 1, j, g2):
-                            cc = z3.simplify(AND(c, c3))
-                            if not z3.is_false(cc):
-                                more.append((cc, j3, g3))
+                            more.append((c + c3, j3, g3))
                 return (more + stop) if greedy else (stop + more)
+            if not tail:
+                return rep(0, i, groups)
+            # the continuation of every iteration count is the pattern end
             return rep(0, i, groups)
         if op in (K.ASSERT, K.ASSERT_NOT):
             direction, p = av
             if direction == 1:
-                c = OR([c for (c, j, g) in self.seq(list(p), s, i, groups)])
+                c = OR([AND(*c) for (c, j, g) in self.seq(list(p), s, i, groups)])
             else:
                 w = p.getwidth()
                 if w[0] != w[1]:
                     raise Unsupported('variable width look-behind')
                 w = w[0]
                 c = FALSE if i - w < 0 else OR(
-                    [c for (c, j, g) in self.seq(list(p), s, i - w, groups) if j == i])
-            return [(c if op is K.ASSERT else NOT(c), i, groups)]
+                    [AND(*c) for (c, j, g) in self.seq(list(p), s, i - w, groups) if j == i])
+            a = self._atom(c if op is K.ASSERT else NOT(c))
+            return [] if a is None else [(a, i, groups)]
         raise Unsupported('regex op %s' % op)
 
-    def match_at(self, s, i, full=False):
+    @staticmethod
+    def _rkey(j, g):
+        def k(v):
+            return v if isinstance(v, int) else ('t', v.get_id())
+        return (k(j), tuple(sorted((gid, k(a), k(b)) for gid, (a, b) in g.items())))
+
+    def match_at(self, s, i, full=False, symbolic_end=False):
         """-> (ordered [(sel_cond, end, groups)], any_match_cond); sel_cond = this
-        alternative is THE match chosen at start i."""
-        alts = [(c, j, g) for (c, j, g) in self.seq(list(self.tree), s, i, {}) if j <= s.cap]
-        out = []
-        prior = []
+        alternative is THE match chosen at start i.  With symbolic_end the end
+        (and group ends) of an alternative may be z3 Int terms."""
+        alts = [(c, j, g) for (c, j, g) in self.seq(list(self.tree), s, i, {}, tail=symbolic_end)
+                if not isinstance(j, int) or j <= s.cap]
+        n = s.nz()
+        # 1. conjunction terms; 2. merge ADJACENT alternatives with the same
+        # result (end, groups): their relative priority does not matter
+        merged = []
         for (c, j, g) in alts:
-            c = AND(c, j <= s.nz())
+            if isinstance(j, int):
+                extra = () if j <= s.lo else self._atom(j <= n)
+            else:
+                extra = self._atom(j <= n)
+            if extra is None:
+                continue
+            c = c + extra
             if full:
-                c = AND(c, s.nz() == j)
-            sel = z3.simplify(AND(c, NOT(OR(prior))))
-            if not z3.is_false(sel):
-                out.append((sel, j, g))
-            prior.append(c)
-        return out, z3.simplify(OR(prior))
+                e2 = self._atom(n == j)
+                if e2 is None:
+                    continue
+                c = c + e2
+            # atoms are shared between alternatives: dedupe, keep order
+            seen = set()
+            lst = []
+            for a in c:
+                k = a.get_id()
+                if k not in seen:
+                    seen.add(k)
+                    lst.append(a)
+            ct = AND(*lst)
+            rk = self._rkey(j, g)
+            if merged and merged[-1][0] == rk:
+                merged[-1][1].append(ct)
+            else:
+                merged.append((rk, [ct], j, g))
+        out = []
+        conds = []
+        none_before = TRUE
+        for (rk, cts, j, g) in merged:
+            ct = OR(cts)
+            sel = AND(ct, none_before)
+            out.append((sel, j, g))
+            conds.append(ct)
+            if ct.get_id() == _TRUE_ID:
+                none_before = FALSE
+                break
+            none_before = AND(none_before, NOT(ct))
+        return out, OR(conds)
 
     # ---- API
     def sub(self, repl, s, count=0):
@@ -343,8 +480,9 @@ class SymPattern:
         st = z3.IntVal(-1)
         en = z3.IntVal(-1)
         gs = {g: (z3.IntVal(-1), z3.IntVal(-1)) for g in gids}
+        cand = {g: (set(), set(), set()) for g in [0] + gids}   # concrete candidate starts / ends / {'sym'} if an end is symbolic
         for p in positions:
-            alts, anym = self.match_at(s, p, full=full)
+            alts, anym = self.match_at(s, p, full=full, symbolic_end=True)
             here = z3.simplify(AND(NOT(found), p <= s.nz(), anym))
             if z3.is_false(here):
                 continue
@@ -352,9 +490,18 @@ class SymPattern:
             lg = {g: (z3.IntVal(-1), z3.IntVal(-1)) for g in gids}
             for (sel, j, g) in reversed(alts):
                 e = z3.If(sel, j, e)
+                cand[0][0].add(p)
+                cand[0][1].add(j if isinstance(j, int) else s.cap)
+                if not isinstance(j, int):
+                    cand[0][2].add('sym')
                 for gid in gids:
                     a, b = g.get(gid, (-1, -1))
                     lg[gid] = (z3.If(sel, a, lg[gid][0]), z3.If(sel, b, lg[gid][1]))
+                    if not isinstance(a, int) or a >= 0:
+                        cand[gid][0].add(a)
+                        cand[gid][1].add(b if isinstance(b, int) else s.cap)
+                        if not isinstance(b, int):
+                            cand[gid][2].add('sym')
             st = z3.If(here, p, st)
             en = z3.If(here, e, en)
             for gid in gids:
@@ -363,7 +510,7 @@ class SymPattern:
         if not mk(z3.simplify(found)):
             return None
         return SymMatch(self, s, z3.simplify(st), z3.simplify(en),
-                        {g: (z3.simplify(a), z3.simplify(b)) for g, (a, b) in gs.items()})
+                        {g: (z3.simplify(a), z3.simplify(b)) for g, (a, b) in gs.items()}, cand)
 
     def search(self, s, pos=0, endpos=None):
         if not isinstance(s, SymStr):
@@ -422,7 +569,8 @@ class SymPattern:
 
 
 class SymMatch:
-    def __init__(self, pat, s, st, en, gs):
+    def __init__(self, pat, s, st, en, gs, cand=None):
+        self.cand = cand or {}
         self.pat = pat
         self.s = s
         self.st = st
@@ -449,14 +597,38 @@ class SymMatch:
     def span(self, g=0):
         return (self.start(g), self.end(g))
 
+    def _slice(self, gid, a, b):
+        """s[a:b] where a / b are known to range over the concrete candidate
+        positions collected during the search: the result gets a tight
+        capacity and each character is an ite over the candidate starts only"""
+        starts, ends, symflag = self.cand.get(gid, (None, None, None))
+        if not starts or not ends or any(not isinstance(x, int) for x in starts):
+            return self.s[SymInt(a):SymInt(b)]
+        starts = sorted(starts)
+        cap = max(0, max(ends) - starts[0])
+        s = self.s
+        ln = z3.simplify(b - a)
+        cs = []
+        for k in range(cap):
+            ch = Z
+            for a0 in reversed(starts):
+                c0 = s.cs[a0 + k] if a0 + k < s.cap else Z
+                ch = c0 if a0 is starts[-1] and len(starts) == 1 else z3.If(a == a0, c0, ch)
+            cs.append(z3.simplify(z3.If(k < ln, ch, Z)))
+        lo = 0
+        if len(starts) == 1 and not symflag:
+            lo = max(0, min(min(ends), s.lo) - starts[0])
+        return SymStr(cs, ln, lo=lo)
+
     def group(self, g=0):
         if g == 0:
-            return self.s[SymInt(self.st):SymInt(self.en)]
-        a, b = self.gs[self._gid(g)]
+            return self._slice(0, self.st, self.en)
+        gid = self._gid(g)
+        a, b = self.gs[gid]
         part = mk(a >= 0)
         if not part:
             return None
-        return self.s[SymInt(a):SymInt(b)]
+        return self._slice(gid, a, b)
 
     def groups(self):
         return tuple(self.group(g) for g in range(1, self.pat.groups + 1))
